@@ -175,3 +175,20 @@ func withTimeout(parent Context, d time.Duration) (Context, CancelFunc) {
 	}
 	return c, c.cancelFunc()
 }
+
+// CancelNow cancels ctx (created by this package under the scheduler) without
+// parking. It must be called from inside an operation's Fire, so that harness
+// code can observe the state of other tasks atomically with the cancellation.
+func CancelNow(ctx Context) {
+	if c := findVC(ctx); c != nil && vs.W != nil {
+		c.cancel(vs.W, Canceled)
+	}
+}
+
+// DoneObjs returns the happens-before objects a cancellation of ctx writes.
+func DoneObjs(ctx Context) []unsafe.Pointer {
+	if c := findVC(ctx); c != nil {
+		return c.doneObjs(nil)
+	}
+	return nil
+}
